@@ -2,12 +2,12 @@
 # Development helper: run every rule set (one process, one load) on a scratch copy of /repo with a patch applied.
 # usage: allprops.sh <patch-file> [full]   -> one line: "<P>[rules] <P>[rules] …" (empty = all clean); with "full" prints the report lines
 P="$1"; MODE="${2:-line}"
-cd /verif; ./build.sh >&2 || exit 2
+cd /verif; [ -n "${RV_BIN:-}" ] || ./build.sh >&2 || exit 2
 S=$(mktemp -d /tmp/rsyncverif-all.XXXXXX); mkdir -p $S/repo $S/v/evidence
 (cd /repo && tar --exclude=.git -cf - .) | tar -xf - -C $S/repo
 if ! (cd $S/repo && patch -p1 -s --no-backup-if-mismatch < "$P" >/dev/null 2>&1); then echo "patch does not apply"; rm -rf $S; exit 3; fi
 cp known_findings.json $S/v/
-./bin/rsyncverif -repo $S/repo -verif $S/v -prop all -tier quick > $S/out 2>&1
+${RV_BIN:-./bin/rsyncverif} -repo $S/repo -verif $S/v -prop all -tier quick > $S/out 2>&1
 if [ $(grep -c '^property=' $S/out) -lt 20 ]; then echo "CHECKER DID NOT COMPLETE: $(grep -m1 -E 'fatal|panic|error' $S/out | cut -c1-120)"; rm -rf $S; exit 4; fi
 if [ "$MODE" = full ]; then grep -E '^(==|VIOLATED|UNDECIDED|CHECK-FAILURE)' $S/out | cut -c1-${CUT:-400}; else
 python3 - $S/out <<'PY'
